@@ -13,7 +13,17 @@ BIN = os.path.join(HARN, "bin")
 EVID = os.path.join(VERIF, "evidence")
 REPLAYS = os.path.join(EVID, "replays")
 REPO = os.environ.get("VERIF_REPO", "/repo")
-NCPU = os.cpu_count() or 4
+NCPU = int(os.environ.get("VERIF_NCPU", "0")) or os.cpu_count() or 4
+if REPO != "/repo":
+    # development aid: run the checks against another checkout (a scratch worktree with a
+    # seeded change) without touching /repo or /verif/harness: build in a private copy.
+    _alt = tempfile.mkdtemp(prefix="verif-harness-")
+    shutil.copytree(HARN, os.path.join(_alt, "harness"), ignore=shutil.ignore_patterns("bin", "go.sum", "go.mod"))
+    HARN = os.path.join(_alt, "harness")
+    BIN = os.path.join(HARN, "bin")
+    EVID = os.path.join(_alt, "evidence")
+    REPLAYS = os.path.join(EVID, "replays")
+    atexit.register(lambda: None if os.environ.get("VERIF_KEEP") else shutil.rmtree(_alt, ignore_errors=True))
 
 
 class Inconclusive(Exception):
